@@ -101,6 +101,9 @@ var repeat int = -1
 // advertising spoofing for target LLAs.
 func (h *Handler6) ProcessPacket(pkt packet.Frame) (err error) {
 	ip6Frame := pkt.IP6()
+	if ip6Frame == nil { // protocol 58 carried in an IPv4 packet: there is no IPv6 header to read
+		return packet.ErrParseFrame
+	}
 	icmp6Frame := packet.ICMP(pkt.Payload())
 
 	if err := icmp6Frame.IsValid(); err != nil {
